@@ -58,7 +58,43 @@ func runC20(c *Ctx) {
 func c20Rescan(c *Ctx, p *core.Prog) {
 	r := c.R
 	fns := p.SrcFuncs("pkg/sql/tokenizer")
-	// rescanners: functions with a loop whose exit test compares a local induction variable with len(input)/len(lineStarts)/an offset parameter
+	// parameters that receive the tokenizer's input / line index at some call site
+	inputLike := map[*ssa.Parameter]bool{}
+	for _, fn := range fns {
+		for _, b := range fn.Blocks {
+			for _, in := range b.Instrs {
+				ci, ok := in.(ssa.CallInstruction)
+				if !ok {
+					continue
+				}
+				callee := ci.Common().StaticCallee()
+				if callee == nil || callee.Blocks == nil {
+					continue
+				}
+				for i, a := range ci.Common().Args {
+					if isFieldLoadNamed(a, "input", "lineStarts") && i < len(callee.Params) {
+						inputLike[callee.Params[i]] = true
+					}
+				}
+			}
+		}
+	}
+	isInputLen := func(v ssa.Value) string {
+		l := core.LenOf(v)
+		if l == nil {
+			return ""
+		}
+		if isFieldLoadNamed(l, "input", "lineStarts") {
+			fa := l.(*ssa.UnOp).X.(*ssa.FieldAddr)
+			return core.FieldName(fa.X.Type(), fa.Field)
+		}
+		if par, ok := l.(*ssa.Parameter); ok && inputLike[par] {
+			return "parameter " + par.Name()
+		}
+		return ""
+	}
+	// rescanners: functions with a loop over input / lineStarts driven by a local index that starts at a
+	// fixed point (0, or len-1 counting down) instead of continuing from the tokenizer's cursor
 	rescanner := map[*ssa.Function]string{}
 	for _, fn := range fns {
 		for _, scc := range blockSCCs(fn, nil, nil, nil) {
@@ -69,16 +105,25 @@ func c20Rescan(c *Ctx, p *core.Prog) {
 					continue
 				}
 				for _, bo := range condConjuncts(iff.Cond, 0) {
-					l := core.LenOf(bo.Y)
-					if l == nil || !isFieldLoadNamed(l, "input", "lineStarts") {
-						continue
-					}
-					// the compared value is a local induction variable (phi in the loop), not the cursor field
 					ph, isPhi := bo.X.(*ssa.Phi)
 					if !isPhi || !in[ph.Block()] {
 						continue
 					}
-					rescanner[fn] = "loop over " + core.FieldName(l.(*ssa.UnOp).X.(*ssa.FieldAddr).X.Type(), l.(*ssa.UnOp).X.(*ssa.FieldAddr).Field) + " with a local index"
+					// ascending: i < len(X)
+					if what := isInputLen(bo.Y); what != "" {
+						rescanner[fn] = "loop over " + what + " with a local index"
+						continue
+					}
+					// descending: i >= 0 with i starting at len(X)-1
+					if k, isC := core.ConstInt(bo.Y); isC && k == 0 && (bo.Op == token.GEQ || bo.Op == token.GTR) {
+						for _, e := range ph.Edges {
+							if sub, ok := e.(*ssa.BinOp); ok && sub.Op == token.SUB {
+								if what := isInputLen(sub.X); what != "" {
+									rescanner[fn] = "loop counting down from the end of " + what
+								}
+							}
+						}
+					}
 				}
 			}
 		}
@@ -91,10 +136,15 @@ func c20Rescan(c *Ctx, p *core.Prog) {
 	inPkg := func(f *ssa.Function) bool { return f != nil && f.Blocks != nil && core.InPkgs(f, "pkg/sql/tokenizer") }
 	g := p.Restrict(inPkg)
 	reachesRescan := map[*ssa.Function]*ssa.Function{}
+	var rsSorted []*ssa.Function
 	for rs := range rescanner {
+		rsSorted = append(rsSorted, rs)
+	}
+	sort.Slice(rsSorted, func(i, j int) bool { return rsSorted[i].Name() < rsSorted[j].Name() })
+	for _, rs := range rsSorted {
 		for f := range g.ReachesIn(rs) {
 			if _, ok := reachesRescan[f]; !ok {
-				reachesRescan[f] = rs
+				reachesRescan[f] = rs // deterministic: the alphabetically first rescanner reachable from f
 			}
 		}
 	}
